@@ -1,6 +1,7 @@
 package verifsim
 
 import (
+	"bytes"
 	"encoding/json"
 	"flag"
 	"fmt"
@@ -244,6 +245,27 @@ type ReplayFile struct {
 	Minimised bool           `json:"minimised"`
 }
 
+// rssBytes reads the resident set size of this process (0 if unknown).
+func rssBytes() int64 {
+	b, err := os.ReadFile("/proc/self/statm")
+	if err != nil {
+		return 0
+	}
+	var size, rss int64
+	fmt.Sscan(string(b), &size, &rss)
+	return rss * int64(os.Getpagesize())
+}
+
+// mapCount is the number of memory mappings of this process (the kernel
+// refuses new ones beyond vm.max_map_count, 65530 by default).
+func mapCount() int {
+	b, err := os.ReadFile("/proc/self/maps")
+	if err != nil {
+		return 0
+	}
+	return bytes.Count(b, []byte{'\n'})
+}
+
 func startWatchdog() {
 	go func() {
 		last := progress.Load()
@@ -298,6 +320,12 @@ func TestEngine(t *testing.T) {
 	run := *fStart
 	agg := &Aggregate{Agg: true, Prop: sc.Prop, Faults: map[string]int{}, Probes: map[string]int{}, Cfg: map[string]map[string]int{}, Viols: map[string]*ViolAgg{}}
 	for n := 0; n < *fChunk && time.Now().Before(deadline); n++ {
+		// a worker that has grown large (mmap'ed bolt files, leaked timers of
+		// torn-down cores) hands over to a fresh process instead of running
+		// into "cannot allocate memory"; the driver continues at VERIF-NEXT
+		if n%32 == 31 && (rssBytes() > 3<<30 || mapCount() > 20000) {
+			break
+		}
 		seed := mixSeed(*fSeed, run)
 		res := runOne(t, sc, NewTape(seed), *fTier, run, seed)
 		// full lines only for what the driver must look at individually;
